@@ -84,8 +84,8 @@ def gen_vars(r, layout=None, int_frac=0.0, positive=False):
         lb, ub = gen_bounds(r, positive=positive)
         d = {"kind": kind, "name": name, "lb": lb, "ub": ub, "domain": dom()}
         d.update(kw)
-        if d["domain"] == "binary":
-            d["lb"], d["ub"] = None, None
+        if d["domain"] == "binary" and r.random() < 0.5:
+            d["lb"], d["ub"] = None, None  # else: binary declared with explicit (wider) bounds
         vs.append(d)
 
     if layout == "A":
@@ -477,7 +477,7 @@ C12_METHODS = ["auto", "SLSQP", "trust-constr", "L-BFGS-B", "SLSQP", "trust-cons
 
 
 def gen_c12_pool(r, deep=0):
-    layout = r.choice(["A", "B", "B", "E"])
+    layout = r.choice(["A", "B", "B", "E", "C", "D"])
     sp = {"name": "pm", "vars": gen_vars(r, layout), "params": [], "exprs": {}, "cons": {}}
     np_ = r.randint(1, 3)
     pl = []
@@ -528,9 +528,26 @@ def gen_c12_pool(r, deep=0):
     cons["c2"] = gen_lin_con(r, sp, core)
     cons["c3"] = {"k": "s", "lhs": L(r.choice(core)), "sense": r.choice([">=", "<="]), "rhs": r.choice(pl)}
     cons["c4"] = {"k": "s", "lhs": ["+", ["**", L(core[0]), ["num", 2]], ["*", r.choice(pl), L(core[-1])]], "sense": "<=", "rhs": ["num", r.choice([4.0, 9.0, 25.0])]}
+    # a Parameter scaling a whole vector reduction (vectorised jacobian_row / gradient rules)
+    vhs = vec_handles(sp["vars"])
+    if vhs:
+        vec, vnames = r.choice(vhs)
+        vec2, vnames2 = r.choice(vhs)
+        p1, p2, p3 = r.choice(pl), r.choice(pl), r.choice(pl)
+        ex["o6"] = ["*", p1, ["vsum", vec]] if r.random() < 0.5 else ["+", ["*", ["vsum", vec], p1], ["num", 2.0]]
+        ex["o7"] = ["*", p2, ["dot", vec2, vec2]] if r.random() < 0.5 else ["-", ["*", ["dot", vec2, vec2], p2], ["num", 1.0]]
+        ex["o8"] = ["*", p3, ["lincomb", [r.choice(COEFS) for _ in vnames], vec]]
+        Q = [[0.0] * len(vnames2) for _ in vnames2]
+        for i in range(len(vnames2)):
+            Q[i][i] = r.choice([1.0, 2.0])
+        ex["o9"] = ["*", ["quad", vec2, Q], r.choice(pl)]
+        ex["g3"] = ["*", r.choice(pl), ["vsum", vec]]
+        ex["g4"] = ["*", ["dot", vec2, vec2], r.choice(pl)]
+        cons["c5"] = {"k": "s", "lhs": ["*", r.choice(pl), ["vsum", vec]], "sense": "<=", "rhs": ["num", r.choice([2.0, 6.0])]}
+        cons["c6"] = {"k": "s", "lhs": ["*", ["lincomb", [r.choice(POS) for _ in vnames2], vec2], r.choice(pl)], "sense": ">=", "rhs": ["num", r.choice([-3.0, 0.5])]}
     sp["expr_order"] = sorted(ex)
     sp["con_order"] = sorted(cons)
-    meta = {"convex": ["o0"], "lincons": ["c0", "c2", "c3"]}
+    meta = {"convex": ["o0"], "lincons": ["c0", "c2", "c3"], "linear": ["o4"] + (["o6", "o8"] if vhs else []), "linpcons": ["c1"] + (["c5", "c6"] if vhs else [])}
     return sp, meta
 
 
@@ -586,6 +603,16 @@ def gen_c12(r):
         hid = f"h{len(hids)}"
         ops.append(gen_handle(r, sp, hid, enames))
         hids.append(hid)
+    twin = r.random() < 0.35
+    if twin:
+        # an alike model (same names) whose parameters hold other values: compiled / solved first
+        tw = mutate_spec(random.Random(r.random()), sp) if r.random() < 0.5 else sp
+        ops.append(["new_model", 1, tw])
+        ops.append(_retarget(gen_handle(r, sp, "t0", enames), 1))
+        ops.append(["call", 1, "t0", gen_point(r, sp)])
+        ops.append(["minimize", 1, r.choice(onames)])
+        ops.append(["solve", 1, {"method": r.choice(C12_METHODS)}])
+        ops.append(_retarget(gen_param_op(r, sp), 1))
     obj = r.choice(onames)
     ops.append([r.choice(["minimize", "minimize", "maximize"]) if obj != "o0" else "minimize", 0, obj])
     cur_obj, cur_sense = obj, ops[-1][0]
@@ -601,7 +628,11 @@ def gen_c12(r):
         elif k < 0.55:
             a = {"method": r.choice(C12_METHODS)}
             if cur_obj in meta["convex"] and cur_sense == "minimize" and all(c in meta["lincons"] for c in cur_cons) and a["method"] in ("SLSQP", "trust-constr"):
-                a["r2"] = True
+                a["r2"] = "convex"
+            elif cur_obj in meta["linear"] and all(c in meta["lincons"] + meta["linpcons"] for c in cur_cons):
+                if r.random() < 0.6:
+                    a["method"] = r.choice(["auto", "auto", "linprog", "highs-ds"])
+                a["r2"] = "lp"
             if r.random() < 0.1:
                 a["use_hessian"] = False
             ops.append(["solve", 0, a])
@@ -614,6 +645,9 @@ def gen_c12(r):
             hid = f"h{len(hids)}"
             ops.append(gen_handle(r, sp, hid, enames))
             hids.append(hid)
+        elif k < 0.92 and twin:
+            ops.append(_retarget(gen_param_op(r, sp), 1))
+            ops.append(["call", 1, "t0", gen_point(r, sp)] if r.random() < 0.5 else ["solve", 1, {"method": r.choice(C12_METHODS)}])
         elif k < 0.95:
             obj = r.choice(onames)
             ops.append([r.choice(["minimize", "maximize"]) if obj != "o0" else "minimize", 0, obj])
@@ -846,6 +880,10 @@ def _state_after(ops):
             sh["ov"].setdefault(op[2], {})[op[0][4:]] = op[3]
         elif op[0] == "param_set" and op[1] == 0:
             sh["pv"][op[2]] = op[3]
+        elif op[0] == "vparam_set" and op[1] == 0:
+            sh["pv"][op[2]] = list(op[3])
+        elif op[0] == "pel_set" and op[1] == 0:
+            sh["pv"][op[2]][op[3]] = op[4]
     return sh
 
 
@@ -941,13 +979,13 @@ C06_METHODS = ["auto", "auto", "auto", "linprog", "highs", "highs-ds", "highs-ip
                "TNC", "BFGS", "CG", "Newton-CG", "COBYLA", "Nelder-Mead", "Powell"]
 
 
-def entered_method(method, sh, okind, ckinds):
+def entered_method(method, sh, okind, ckinds, parametric=False):
     """Which solver the generator expects optyx to enter first (only used to pick a response table)."""
     if method in LP_METHODS:
         return "lp"
     if method != "auto":
         return method
-    lin = okind == "lin" and all(k in ("lin", "vec", "newvar") for k in ckinds)
+    lin = okind == "lin" and all(k in ("lin", "vec", "newvar") for k in ckinds) and not parametric
     if lin:
         return "lp"
     if not ckinds:
@@ -960,7 +998,16 @@ def entered_method(method, sh, okind, ckinds):
 def gen_c06(r, tier="quick", c07=False):
     knobs = gen_knobs(r, 0.7)
     kinds = r.choice([("lin",), ("lin", "quad"), ("quad", "nl"), ("lin", "quad", "nl")])
-    sp, meta = gen_pool(r, kinds=kinds, nobj=3, ncon=5, layout=r.choice(["A", "B", "C", "D", "E"]) if c07 else None)
+    parametric = r.random() < 0.25
+    if parametric:
+        sp, m12 = gen_c12_pool(r)
+        meta = {"okinds": {o: ("lin" if o == "o4" else "nl") for o in sp["exprs"]},
+                "ckinds": {c: ("nl" if c == "c4" else "lin") for c in sp["cons"]}, "parametric": True}
+        for g in [e for e in sp["exprs"] if e.startswith("g")]:
+            del sp["exprs"][g]
+        sp["expr_order"] = sorted(sp["exprs"])
+    else:
+        sp, meta = gen_pool(r, kinds=kinds, nobj=3, ncon=5, layout=r.choice(["A", "B", "C", "D", "E"]) if c07 else None)
     inf = r.random() < (0.2 if c07 else 0.4)
     if inf:
         make_infeasible(r, sp)
@@ -979,7 +1026,7 @@ def gen_c06(r, tier="quick", c07=False):
         sh = _state_after(ops)
         method = r.choice(C06_METHODS)
         a = {"method": method}
-        ent = entered_method(method, sh, meta["okinds"][sh["objective"]], [meta["ckinds"][c] for c in sh["cons"]])
+        ent = entered_method(method, sh, meta["okinds"][sh["objective"]], [meta["ckinds"][c] for c in sh["cons"]], parametric)
         k = r.random()
         if r.random() < 0.25:
             a["tol"] = r.choice([1e-4, 1e-6, 1e-8])
@@ -999,9 +1046,29 @@ def gen_c06(r, tier="quick", c07=False):
                 peers.append(gen_peer(r, "trust-constr", sh, entry=1))
             a["peers"] = peers
         ops.append(["solve", 0, a])
-        if r.random() < 0.2:
+        k = r.random()
+        if k < 0.15:
             # an edit between solves (cached closures / LP data get rebuilt)
             ops.append(["subject_to", 0, r.choice(base)])
+        elif k < 0.35:
+            # objective re-installed: same expression with the other sense, or another expression
+            cur = _state_after(ops)
+            if r.random() < 0.6:
+                ops.append(["maximize" if cur["sense"] == "min" else "minimize", 0, cur["objective"]])
+            else:
+                ops.append([r.choice(["minimize", "maximize"]), 0, r.choice(sorted(sp["exprs"]))])
+        elif k < 0.5 and sp["params"]:
+            ops.append(gen_param_op(r, sp))
+        elif k < 0.6:
+            e = r.choice(sorted(S.problem_vars(_state_after(ops)), key=S.natural_key) or ["w"])
+            at = S.elem_attrs(_state_after(ops))[e]
+            if at[2] != "binary":
+                if r.random() < 0.5:
+                    ops.append(["set_lb", 0, e, (at[1] if at[1] is not None else 4.0) - r.choice([0.5, 1.0, 2.0])])
+                else:
+                    ops.append(["set_ub", 0, e, (at[0] if at[0] is not None else -4.0) + r.choice([0.5, 1.0, 2.0])])
+    if ops[-1][0] != "solve":
+        ops.append(["solve", 0, {"method": r.choice(C06_METHODS)}])
     return {"knobs": knobs, "ops": ops}
 
 
@@ -1143,12 +1210,14 @@ def c18_sweep_cases(tier):
             ("mT", ["mT", "b"], ["mel", "b", 0, 1]),
         ]),
     }
-    for dom in ("integer", "binary"):
+    for dom in ("integer", "binary", "binary-wide"):
         for dname, (decl, routes) in decls.items():
             for rname, route, e in routes:
-                d = dict(decl, domain=dom)
+                d = dict(decl, domain=dom.split("-")[0])
                 if dom == "integer":
                     d["lb"], d["ub"] = 0.0, 4.0
+                elif dom == "binary-wide":
+                    d["lb"], d["ub"] = -2.0, 3.0  # declared wider than [0,1]: binary must still carry [0,1]
                 sp = {
                     "name": "int",
                     "vars": [d, {"kind": "scalar", "name": "x", "lb": 0.0, "ub": 3.0, "domain": "continuous"}],
@@ -1168,3 +1237,87 @@ def c18_sweep_cases(tier):
                                ["solve", 0, {"method": meth}],
                                ["solve", 0, {"method": meth, "strict": True}]]
                         yield f"{dom}:{dname}:{rname}:{oname}:{meth}", {"knobs": knobs, "ops": ops}
+
+
+# --------------------------------------------------------------------------
+# C13: bounded exhaustive sweep over a reduced alphabet
+# --------------------------------------------------------------------------
+
+C13_POOLS = [
+    {
+        "name": "sw0",
+        "vars": [
+            {"kind": "scalar", "name": "x", "lb": 0.0, "ub": 4.0, "domain": "continuous"},
+            {"kind": "scalar", "name": "y", "lb": 0.0, "ub": 3.0, "domain": "continuous"},
+            {"kind": "scalar", "name": "w", "lb": 0.0, "ub": 2.0, "domain": "continuous"},
+        ],
+        "params": [],
+        "exprs": {
+            "olin": ["+", ["+", ["*", ["num", 2.0], ["var", "x"]], ["var", "y"]], ["num", 5.0]],
+            "olin2": ["-", ["*", ["num", 3.0], ["var", "y"]], ["var", "x"]],
+            "oquad": ["+", ["**", ["-", ["var", "x"], ["num", 1.0]], ["num", 2]], ["**", ["-", ["var", "y"], ["num", 2.5]], ["num", 2]]],
+        },
+        "cons": {
+            "clin": {"k": "s", "lhs": ["+", ["var", "x"], ["var", "y"]], "sense": ">=", "rhs": ["num", 1.0]},
+            "cnl": {"k": "s", "lhs": ["*", ["var", "x"], ["var", "y"]], "sense": ">=", "rhs": ["num", 0.5]},
+            "cnew": {"k": "s", "lhs": ["+", ["var", "x"], ["var", "w"]], "sense": "<=", "rhs": ["num", 3.0]},
+        },
+        "lbvar": "x",
+    },
+    {
+        "name": "sw1",
+        "vars": [
+            {"kind": "vector", "name": "v", "n": 3, "lb": 0.0, "ub": 5.0, "domain": "continuous"},
+            {"kind": "scalar", "name": "w", "lb": -1.0, "ub": 2.0, "domain": "continuous"},
+        ],
+        "params": [],
+        "exprs": {
+            "olin": ["lincomb", [1.0, 2.0, 3.0], ["vec", "v"]],
+            "olin2": ["-", ["vsum", ["vec", "v"]], ["num", 2.0]],
+            "oquad": ["+", ["dot", ["vec", "v"], ["vec", "v"]], ["neg", ["vel", "v", 0]]],
+        },
+        "cons": {
+            "clin": {"k": "s", "lhs": ["vsum", ["vec", "v"]], "sense": ">=", "rhs": ["num", 1.5]},
+            "cnl": {"k": "s", "lhs": ["+", ["**", ["vel", "v", 0], ["num", 2]], ["**", ["vel", "v", 1], ["num", 2]]], "sense": "<=", "rhs": ["num", 4.0]},
+            "cnew": {"k": "s", "lhs": ["+", ["vel", "v", 2], ["var", "w"]], "sense": ">=", "rhs": ["num", 0.5]},
+        },
+        "lbvar": "v[1]",
+    },
+]
+
+
+def c13_alphabet(pool):
+    return [
+        ["minimize", 0, "olin"],
+        ["minimize", 0, "oquad"],
+        ["maximize", 0, "olin2"],
+        ["subject_to", 0, "clin"],
+        ["subject_to", 0, "cnl"],
+        ["subject_to", 0, "cnew"],
+        ["set_lb", 0, pool["lbvar"], 1.25],
+        ["solve", 0, {"method": "auto"}],
+        ["solve", 0, {"method": "linprog"}],
+        ["solve", 0, {"method": "SLSQP"}],
+        ["solve", 0, {"method": "trust-constr"}],
+        ["read_variables", 0],
+    ]
+
+
+def c13_sweep_cases(tier):
+    import itertools
+
+    from .world import DEFAULT_KNOBS
+
+    maxlen = 2 if tier == "quick" else 4
+    for pool in C13_POOLS:
+        sp = {k: v for k, v in pool.items() if k != "lbvar"}
+        sp["expr_order"] = sorted(sp["exprs"])
+        sp["con_order"] = sorted(sp["cons"])
+        alpha = c13_alphabet(pool)
+        obs = {7, 8, 9, 10, 11}
+        for n in range(1, maxlen + 1):
+            for seq in itertools.product(range(len(alpha)), repeat=n):
+                if seq[-1] not in obs:
+                    continue
+                ops = [["new_model", 0, sp]] + [alpha[i] for i in seq]
+                yield f"{pool['name']}:" + ".".join(map(str, seq)), {"knobs": dict(DEFAULT_KNOBS), "ops": ops}
